@@ -119,7 +119,15 @@ def exmod(
     """
     output_directory = path.realpath(output_directory)
     extra_modules_to_all = (
-        cdd.shared.ast_utils.module_to_all(extra_modules)
+        tuple(
+            map(
+                lambda extra_module: (
+                    extra_module,
+                    frozenset(cdd.shared.ast_utils.module_to_all(extra_module)),
+                ),
+                extra_modules,
+            )
+        )
         if extra_modules is not None and extra_modules_to_all is None
         else tuple()
     )  # type: tuple[tuple[str, frozenset], ...]
